@@ -11,7 +11,7 @@ import copy
 import itertools
 
 from .. import envmode
-from ..kernel import Violation, feq
+from ..kernel import Violation, Discard, feq
 from ..gen import gen_seq, KAPPA_CLAMPED, KAPPA_ABOVE
 from ..minimise import list_candidates
 
@@ -230,6 +230,12 @@ def execute(plan, ctx):
     seqs = list(plan["objects"])
     objs = [SequenceParameters(s) for s in seqs]
     caller_list = []
+    try:
+        import inspect
+        kw_ok = "phosphosites" in inspect.signature(SequenceParameters.set_phosphosites).parameters
+    except Exception:
+        kw_ok = False
+    scribbled = {}           # id -> object: containers the caller has edited (kept alive so ids stay unique)
     model = [[] for _ in seqs]          # 1-based positions, first-set order
     if len(seqs) > 1 and (sorted(seqs[1]) == sorted(seqs[0]) or sorted(seqs[1]) == sorted(seqs[0] * 2) or sorted(seqs[1]) == sorted(seqs[0] * 3)):
         ctx.probe("related_objects")
@@ -244,6 +250,8 @@ def execute(plan, ctx):
 
     def check_basic(i, why):
         got = objs[i].get_phosphosites()
+        if id(got) in scribbled:
+            raise Discard("a container the caller had edited was handed out again (whether results are private copies is not said)")
         if list(got) != model[i]:
             raise Violation("sites_mismatch", "sites_mismatch",
                             "object %d (%s): get_phosphosites()=%r, requested in-range S/T/Y in first-set order=%r (%s)" % (
@@ -260,16 +268,20 @@ def execute(plan, ctx):
                 got = objs[i].get_phosphosites()
                 if isinstance(got, list):
                     got.reverse(); got.append(1)
+                    scribbled[id(got)] = got
                     ctx.probe("caller_scribbles_on_returned_container")
         elif w == "seq":
             check_basic(i, "observer")
         elif w == "all":
             got = objs[i].get_all_phosphorylatable_sites()
+            if id(got) in scribbled:
+                raise Discard("a container the caller had edited was handed out again (whether results are private copies is not said)")
             want = [j + 1 for j, c in enumerate(seqs[i]) if c in STY]
             if list(got) != want:
                 raise Violation("all_sites_mismatch", "all_sites", "get_all_phosphorylatable_sites()=%r want %r" % (got, want))
             if scrib and isinstance(got, list):
                 got.reverse(); got.append(1); got.append(len(seqs[i]) + 5)     # a caller edits the list it was handed
+                scribbled[id(got)] = got
                 ctx.probe("caller_scribbles_on_returned_container")
         elif w == "pseq":
             got = objs[i].get_phosphosequence()
@@ -294,16 +306,34 @@ def execute(plan, ctx):
             got = objs[i].get_full_phosphostatus_kappa_distribution()
             if len(got) != 2 ** k:
                 raise Violation("distribution_mismatch", "dist_len", "k=%d sites but %d entries" % (k, len(got)))
-            for r, (row, on) in enumerate(zip(got, itertools.product((0, 1), repeat=k))):
-                st = tuple(int(x) for x in row[6])
-                if st != on:
-                    raise Violation("distribution_mismatch", "dist_order", "entry %d has status %r, binary counting order gives %r" % (r, row[6], on))
-                want = fresh.row(sub(i, on))
-                for c in range(6):
-                    if not feq(row[c], want[c], 1e-12):
-                        raise Violation("distribution_mismatch", "dist_value",
-                                        "object %d (%s) sites %r status %r column %d: %r, substituted sequence %s gives %r" % (
-                                            i, seqs[i], model[i], on, c, row[c], sub(i, on), want[c]))
+            # the i-th flag of a status tuple belongs to the i-th site: in the order get_phosphosites() lists them,
+            # or — the docstring's own example — in order of position; either reading is accepted, consistently
+            orders = [list(range(k))]
+            by_pos = sorted(range(k), key=lambda j: model[i][j])
+            if by_pos != orders[0]:
+                orders.append(by_pos)
+            failure = None
+            for order in orders:
+                failure = None
+                for r, (row, on) in enumerate(zip(got, itertools.product((0, 1), repeat=k))):
+                    st = tuple(int(x) for x in row[6])
+                    if st != on:
+                        failure = ("dist_order", "entry %d has status %r, binary counting order gives %r" % (r, row[6], on))
+                        break
+                    flags = [0] * k
+                    for pos_in_tuple, site_j in enumerate(order):
+                        flags[site_j] = on[pos_in_tuple]
+                    want = fresh.row(sub(i, flags))
+                    bad = [c for c in range(6) if not feq(row[c], want[c], 1e-12)]
+                    if bad:
+                        c = bad[0]
+                        failure = ("dist_value", "object %d (%s) sites %r status %r column %d: %r, substituted sequence %s gives %r" % (
+                            i, seqs[i], model[i], on, c, row[c], sub(i, flags), want[c]))
+                        break
+                if failure is None:
+                    break
+            if failure is not None:
+                raise Violation("distribution_mismatch", failure[0], failure[1])
         ctx.count("observations")
 
     import localcider.backend.sequence as seqmod
@@ -320,15 +350,22 @@ def execute(plan, ctx):
             import copy as _copy
             import pickle as _pickle
             i = op["o"] % len(objs)
-            if op["via"] == "pickle":
-                twin = _pickle.loads(_pickle.dumps(objs[i]))
-            elif op["via"] == "deepcopy":
-                twin = _copy.deepcopy(objs[i])
-            else:
-                twin = _copy.deepcopy(objs[i])
+            try:
+                twin = _pickle.loads(_pickle.dumps(objs[i])) if op["via"] == "pickle" else _copy.deepcopy(objs[i])
+                start = list(twin.get_phosphosites())
+                if twin.get_sequence() != seqs[i]:
+                    raise ValueError("different sequence")
+            except Exception:
+                twin = None
+            if twin is None or any((not isinstance(q, int)) or q < 1 or q > len(seqs[i]) or seqs[i][q - 1] not in STY for q in start) or len(set(start)) != len(start):
+                # copying is not part of the statement: an object that cannot be copied, or whose copy does not
+                # start from a well-formed site list, is simply not used (a placeholder keeps the indices stable)
+                ctx.probe("object_cannot_be_copied")
+                twin = SequenceParameters(seqs[i])
+                start = []
             objs.append(twin)
             seqs.append(seqs[i])
-            model.append(list(model[i]))
+            model.append(start)            # what the copy starts with is its baseline; from here on it is an object of its own
             cleared.append(cleared[i])
             ctx.probe("clone_of_an_object_with_sites" if model[i] else "clone_of_an_object")
             ctx.log.emit("clone", o=i, via=op["via"])
@@ -346,7 +383,10 @@ def execute(plan, ctx):
             cs = child.get_sequence()
             seqs.append(cs)
             objs.append(child)
-            model.append([])             # a copy starts with no requested sites of its own
+            start = list(child.get_phosphosites())
+            if any((not isinstance(q, int)) or q < 1 or q > len(cs) or cs[q - 1] not in STY for q in start) or len(set(start)) != len(start):
+                raise Violation("sites_mismatch", "sites_mismatch", "a shuffled copy of object %d (%s -> %s) starts with phosphosites %r, which are not in-range S/T/Y positions of it" % (i, seqs[i], cs, start))
+            model.append(start)          # whatever well-formed list the copy starts with is its own from now on
             cleared.append(False)
             ctx.probe("shuffled_copy_is_live_object")
             ctx.log.emit("copy", o=i, via=op["via"], child=cs)
@@ -416,7 +456,7 @@ def execute(plan, ctx):
                     ctx.probe("same_list_object_passed_again")
             ctx.sig("set", op["t"], ",".join(sorted(classes)), min(len(model[i]), 4), len(objs))
             try:
-                if op.get("kw"):
+                if op.get("kw") and kw_ok:
                     objs[i].set_phosphosites(phosphosites=arg)
                 else:
                     objs[i].set_phosphosites(arg)
